@@ -45,6 +45,10 @@ pub fn lit_int(e: &syn::Expr) -> Option<i64> {
 
 
 mod tables;
+mod regexes;
+mod schemas;
+mod runtime;
+mod sites;
 
 pub fn write_if_changed(p: &Path, content: &str) -> bool {
     if std::fs::read_to_string(p).ok().as_deref() == Some(content) { return false; }
@@ -59,6 +63,10 @@ fn main() {
     let out = PathBuf::from(args.get(2).map(String::as_str).unwrap_or("/verif/lean/CnbVerif/Gen"));
     let mut ctx = Ctx { repo, out, broken: vec![], items: vec![] };
     if let Some(t) = tables::tables(&mut ctx) { let ch = write_if_changed(&ctx.out.join("Tables.lean"), &t); println!("GEN Tables.lean {}", if ch { "rewritten" } else { "unchanged" }); }
+    if let Some(t) = sites::sites(&mut ctx) { let ch = write_if_changed(&ctx.out.join("Sites.lean"), &t); println!("GEN Sites.lean {}", if ch { "rewritten" } else { "unchanged" }); }
+    if let Some(t) = runtime::runtime(&mut ctx) { let ch = write_if_changed(&ctx.out.join("Runtime.lean"), &t); println!("GEN Runtime.lean {}", if ch { "rewritten" } else { "unchanged" }); }
+    if let Some(t) = schemas::schemas(&mut ctx) { let ch = write_if_changed(&ctx.out.join("Schemas.lean"), &t); println!("GEN Schemas.lean {}", if ch { "rewritten" } else { "unchanged" }); }
+    if let Some(t) = regexes::regexes(&mut ctx) { let ch = write_if_changed(&ctx.out.join("Regexes.lean"), &t); println!("GEN Regexes.lean {}", if ch { "rewritten" } else { "unchanged" }); }
     for i in &ctx.items { println!("ITEM {i}"); }
     for b in &ctx.broken { println!("TIE-BROKEN {b}"); }
     if !ctx.broken.is_empty() { std::process::exit(3); }
